@@ -49,6 +49,12 @@ def inputs_for(ctx):
     rules = ctx.meta.get('rules') or [{'pattern': 'a'}]
     for _ in range(ctx.n(150, 3000)):
         ins.append(gen.g4(rng, rules, rng.choice([8, 30, 120])))
+    # code-point sweep: each code point as the first character of the text and inside it (quick: dense below U+3000, sparse above, specials)
+    step = ctx.n(97, 1)
+    cps = list(range(0, 0x3000)) + list(range(0x3000, 0x110000, step)) + [0xfeff, 0xfffe, 0xfff9, 0xd800, 0xdfff, 0x10ffff, 0x2028, 0x2029, 0xe000]
+    for cp in cps:
+        ins.append(chr(cp) + 'select 1')
+        ins.append('a' + chr(cp))
     return ins
 
 
